@@ -380,15 +380,16 @@ func writeFixture(root string) error {
 // reqRec is one request with everything the reference model needs and what
 // the client observed.
 type reqRec struct {
-	Rid      string
-	site     *site // nil: host that no site serves
-	Outcome  string
-	Method   string
-	Target   string
-	Host     string
-	Hdrs     []string // "Name: value", canonical names, as sent (Host and Content-Length excluded)
-	Body     []byte
-	HostileN int // request-controlled values that contain a brace
+	EncodedPrefix bool `json:"percent_encoded_scope_prefix,omitempty"`
+	Rid           string
+	site          *site // nil: host that no site serves
+	Outcome       string
+	Method        string
+	Target        string
+	Host          string
+	Hdrs          []string // "Name: value", canonical names, as sent (Host and Content-Length excluded)
+	Body          []byte
+	HostileN      int // request-controlled values that contain a brace
 
 	Path        string
 	RawQuery    string
@@ -707,6 +708,13 @@ func (g *gen) make(r *lib.Rng, s *site, o *outcome) *reqRec {
 				q.HostileN++
 			}
 		}
+	}
+	// now and then an unreserved character of the first path segment is sent
+	// percent-encoded: it is the same path (RFC 3986 2.3), inside the same log
+	// scopes and except lists
+	if len(pth) > 1 && pth[0] == '/' && pth[1] >= 'a' && pth[1] <= 'z' && r.Chance(1, 6) {
+		pth = fmt.Sprintf("/%%%02x", pth[1]) + pth[2:]
+		q.EncodedPrefix = true
 	}
 	q.Target = pth + "?" + qs
 	u, err := url.ParseRequestURI(q.Target)
